@@ -8,7 +8,9 @@
     here                 `C08_stream_roundtrip`, non-vacuity examples and the counter-examples showing that every
                          hypothesis is needed.
   Model: H5.Model.Serializer (hand model of `HTMLSerializer.serialize`); Spec: H5.Spec.Tokenizer (the standard's
-  tokenizer, written from the standard).  All theorems hold for every setting of the serializer options with
+  tokenizer, written from the standard).
+  Since the library fix COMMIT_A (the raw-text decision is made only for HTML-namespace elements) a FOREIGN element
+  named like a raw-text element is covered: `tokOK`, `C08_foreign_rawtext_roundtrip`.  All theorems hold for every setting of the serializer options with
   `quote_char` ∈ {`"`, `'`}.
 -/
 import H5.Props.C08cMarkup
@@ -109,10 +111,12 @@ def specialElements : List Str := [
 
 theorem rcdata_sub_special : ∀ x ∈ rcdataElements, x ∈ specialElements := by decide
 
-/-- the tokens of the streams the theorem covers -/
+/-- the tokens of the streams the theorem covers.  A start tag named like a raw-text / RCDATA element is covered when
+its namespace is foreign (not HTML, not missing): since fix COMMIT_A the serializer escapes the text inside it, and a
+reader does not leave the data state for a foreign element. -/
 def tokOK (o : Opts) : Tok → Bool
-  | .startTag _ name attrs => startTagOK o name attrs && !specialElements.elem name
-  | .emptyTag _ name attrs => startTagOK o name attrs && !specialElements.elem name
+  | .startTag ns name attrs => startTagOK o name attrs && (!specialElements.elem name || !htmlOrNone ns)
+  | .emptyTag ns name attrs => startTagOK o name attrs && (!specialElements.elem name || !htmlOrNone ns)
   | .endTag _ name => tagNameOK name
   | .chars s => valueOK s
   | .space s => s.all isWhitespace
@@ -169,14 +173,17 @@ its "CDATA" mode -/
 theorem step_ok (o : Opts) (t : Tok) (ht : tokOK o t = true) (s : St) (hc : s.inCdata = false) :
     ∃ s', H5.Model.Serializer.step o s t = .ok s' ∧ s'.out = s.out ++ tokText o t ∧ s'.errors = s.errors ∧
       s'.inCdata = false := by
-  have tag : ∀ ns name attrs, (startTagOK o name attrs && !specialElements.elem name) = true →
+  have tag : ∀ ns name attrs, (startTagOK o name attrs && (!specialElements.elem name || !htmlOrNone ns)) = true →
       ∃ s', H5.Model.Serializer.step o s (.startTag ns name attrs) = .ok s' ∧ s'.out = s.out ++ startTagText o name attrs ∧
         s'.errors = s.errors ∧ s'.inCdata = false := by
     intro ns name attrs h
-    simp only [Bool.and_eq_true, Bool.not_eq_true'] at h
+    simp only [Bool.and_eq_true, Bool.or_eq_true, Bool.not_eq_true'] at h
     obtain ⟨s', h1, h2, h3, h4⟩ := step_startTag o s ns name attrs
     refine ⟨s', h1, h2, h3 hc, ?_⟩
-    rw [h4, rcdata_false_of_not_special h.2, hc]; rfl
+    rw [h4, hc]
+    rcases h.2 with h5 | h5
+    · rw [rcdata_false_of_not_special h5]; rfl
+    · rw [h5]; simp
   cases t with
   | startTag ns name attrs => exact tag ns name attrs ht
   | emptyTag ns name attrs => exact tag ns name attrs ht
@@ -219,17 +226,17 @@ theorem reach_tok (o : Opts) (hqc : quoteCharOK o = true) (t : Tok) (ht : tokOK 
     (hs : m.state = .data) (hd : m.done = false) (rest : Str) :
     ∃ m', ReachLe (3 * (tokText o t).length) m (tokText o t ++ rest) m' rest ∧ m'.state = .data ∧ m'.done = false ∧
       m'.out = (expected o t).reverse ++ m.out := by
-  have tag : ∀ name attrs, (startTagOK o name attrs && !specialElements.elem name) = true →
+  have tag : ∀ (ns : Option Str) name attrs, (startTagOK o name attrs && (!specialElements.elem name || !htmlOrNone ns)) = true →
       ∃ m', ReachLe (3 * (startTagText o name attrs).length) m (startTagText o name attrs ++ rest) m' rest ∧
         m'.state = .data ∧ m'.done = false ∧
         m'.out = [TTok.startTag name (attrs.map fun a => (a.name, a.value)) (voidElements.elem name && o.useTrailingSolidus)].reverse ++ m.out := by
-    intro name attrs h
+    intro ns name attrs h
     simp only [Bool.and_eq_true] at h
     obtain ⟨m', r, e1, e2, _, e4⟩ := reach_start_tag o hqc name attrs h.1 m hs hd rest
     exact ⟨m', r, e1, e2, by rw [e4]; rfl⟩
   cases t with
-  | startTag ns name attrs => exact tag name attrs ht
-  | emptyTag ns name attrs => exact tag name attrs ht
+  | startTag ns name attrs => exact tag ns name attrs ht
+  | emptyTag ns name attrs => exact tag ns name attrs ht
   | endTag ns name =>
     obtain ⟨m', r, e1, e2, _, e4⟩ := reach_end_tag name ht m hs hd rest
     exact ⟨m', r, e1, e2, by rw [e4]; rfl⟩
@@ -336,8 +343,9 @@ theorem canon_stream (o : Opts) : ∀ (ts : List Tok), (∀ t ∈ ts, tokOK o t 
       rfl
     · rw [hall t (by simp)] at h; exact absurd h (by decide)
 
-/-- **C08c (5) — token stream round trip.**  For every stream of start tags (`startTagOK`, element not one of the
-RCDATA / RAWTEXT / script / plaintext elements), empty tags (same), end tags, text (no NUL/CR), whitespace tokens,
+/-- **C08c (5) — token stream round trip.**  For every stream of start tags (`startTagOK`; the element is not an HTML
+(or namespace-less) RCDATA / RAWTEXT / script / plaintext element — a FOREIGN element of such a name is covered since
+fix COMMIT_A), empty tags (same), end tags, text (no NUL/CR), whitespace tokens,
 comments (`commentOK`) and DOCTYPEs (`doctypeOK`), and every setting of the options with `quote_char` ∈ {`"`, `'`}:
 the serializer model produces its output without reporting any error; the standard's tokenizer, started in the data
 state on that output, emits exactly `ts.flatMap expected` (each tag / comment / DOCTYPE token as given, each text as
@@ -345,7 +353,7 @@ one character token per character, and a `nested-comment` parse error before a c
 hence, modulo `canon` (parse errors dropped, adjacent character tokens merged), exactly the given stream. -/
 theorem C08_stream_roundtrip (o : Opts) (ts : List Tok) (hqc : quoteCharOK o = true)
     (hok : ts.all (tokOK o) = true) :
-    ∃ out, serialize o ts = .ok (out, []) ∧
+    ∃ out, serialize o ts = .ok (out, []) ∧ out = ts.flatMap (tokText o) ∧
       Spec.tokenize .data none false out = .ok (ts.flatMap (expected o)) ∧
       (Spec.tokenize .data none false out).map canon = .ok (canon (ts.map (toTTok o))) := by
   have hall : ∀ t ∈ ts, tokOK o t = true := by simpa [List.all_eq_true] using hok
@@ -355,12 +363,30 @@ theorem C08_stream_roundtrip (o : Opts) (ts : List Tok) (hqc : quoteCharOK o = t
   have ht : Spec.tokenize .data none false (ts.flatMap (tokText o)) = .ok (ts.flatMap (expected o)) := by
     rw [tokenize_of_reach r (Nat.le_refl _) a1 a2, a3]
     simp [initial]
-  refine ⟨ts.flatMap (tokText o), ?_, ht, ?_⟩
+  refine ⟨ts.flatMap (tokText o), ?_, rfl, ht, ?_⟩
   · simp only [serialize, h1, bind, Except.bind, pure, Except.pure]
     rw [h2, h3]; rfl
   · rw [ht]
     simp only [Except.map]
     rw [canon_stream o ts hall]
+
+/-- **C08c (6) — text inside a FOREIGN element named like a raw-text element (since fix COMMIT_A).**  For an element in
+a namespace other than HTML (SVG / MathML `style`, `script`, `title`, `xmp`, …) — whatever its name —, well-formed
+attributes and any text without NUL/CR: the serializer ESCAPES the text (`escape`: no raw `<`), reports no error, and
+the standard's tokenizer (which does not leave the data state for a foreign element) reads back the start tag, exactly
+that text, and the end tag. -/
+theorem C08_foreign_rawtext_roundtrip (o : Opts) (hqc : quoteCharOK o = true) (ns name : Str) (attrs : List Attr) (s : Str)
+    (hns : htmlOrNone (some ns) = false) (hok : startTagOK o name attrs = true) (hs : valueOK s = true) :
+    ∃ out, serialize o [.startTag (some ns) name attrs, .chars s, .endTag (some ns) name] = .ok (out, []) ∧
+      out = startTagText o name attrs ++ escape s ++ endTagText name ∧ 60 ∉ escape s ∧
+      (Spec.tokenize .data none false out).map canon = .ok (canon
+        [.startTag name (attrs.map fun a => (a.name, a.value)) (voidElements.elem name && o.useTrailingSolidus),
+         .chars s, .endTag name [] false]) := by
+  have hname : tagNameOK name = true := by
+    simp only [startTagOK, Bool.and_eq_true] at hok; exact hok.1.1
+  obtain ⟨out, h1, h2, _, h4⟩ := C08_stream_roundtrip o [.startTag (some ns) name attrs, .chars s, .endTag (some ns) name] hqc
+    (by simp [tokOK, hok, hns, hs, hname])
+  exact ⟨out, h1, by simp [h2, tokText], (H5.Props.C08.C08_escape_no_angle s).1, h4⟩
 
 /-! ### Non-vacuity, and necessity of the hypotheses -/
 
@@ -404,5 +430,20 @@ example : (serialize {} [.startTag none [116, 105, 116, 108, 101] [], .chars [60
    a `pre` / `listing` / `textarea` start tag" is not visible here: `[StartTag pre, Characters "\nx"]` is written
    `<pre>\nx` and re-tokenises to exactly those tokens (covered by the theorem), but a PARSER drops the newline
    (real html5lib: `<pre>\nx</pre>` re-parses and re-serializes to `<pre>x</pre>`). -/
+
+/-- the SVG namespace -/
+def svgNs : Str := lit "http://www.w3.org/2000/svg"
+
+-- a FOREIGN `style` (since fix COMMIT_A): its text is escaped — `<style>&lt;b&gt;</style>` — and read back as text;
+-- the HTML `style` is still written raw (and excluded by `tokOK`)
+example : htmlOrNone (some svgNs) = false ∧ htmlOrNone none = true ∧ htmlOrNone (some (lit "http://www.w3.org/1999/xhtml")) = true ∧
+    serialize {} [.startTag (some svgNs) (lit "style") [], .chars (lit "<b>"), .endTag (some svgNs) (lit "style")]
+      = .ok (lit "<style>&lt;b&gt;</style>", []) ∧
+    serialize {} [.startTag (some (lit "http://www.w3.org/1999/xhtml")) (lit "style") [], .chars (lit "<b>"),
+        .endTag (some (lit "http://www.w3.org/1999/xhtml")) (lit "style")]
+      = .ok (lit "<style><b></style>", []) := by decide
+example : (serialize {} [.startTag (some svgNs) (lit "style") [], .chars (lit "<b>"), .endTag (some svgNs) (lit "style")]).bind
+    (fun r => (Spec.tokenize .data none false r.1).map canon)
+    = .ok [.startTag (lit "style") [] false, .chars (lit "<b>"), .endTag (lit "style") [] false] := by decide +kernel
 
 end H5.Props.C08c
